@@ -251,8 +251,10 @@ def hashFrom : Nat → List Cell → Nat
 /-- the value returned by `__hash__` -/
 def hashRaw (i : Intf) : Nat := hashFrom 0 (sortList i)
 
-/-- `hash(obj)` on a 64-bit CPython: a non-negative `int` is reduced modulo `2^61 - 1` -/
-def pyHash (i : Intf) : Nat := hashRaw i % (2 ^ 61 - 1)
+/-- `hash(obj)` on a 64-bit CPython: the value of `__hash__` itself when it fits a `Py_ssize_t`,
+otherwise the hash of that `int`, i.e. the value modulo `2^61 - 1` -/
+def pyHash (i : Intf) : Nat :=
+  if hashRaw i < 2 ^ 63 then hashRaw i else hashRaw i % (2 ^ 61 - 1)
 
 /-! ### `CiscoRange` on interface members -/
 
